@@ -639,7 +639,7 @@ func (f *Frame) contractCall(c *ssa.CallCommon, ct *FuncContract, callee *ssa.Fu
 			f.panicEdgeV(ex.def(f.pfx+"panicsmay", "Bool", and(substSX(ct.PanicsMay.Term, envPre), mp)), "callee_panics", anchor, calleePV)
 		}
 	}
-	if ct.MayPanic {
+	if ct.MayPanic && !ct.NoPanicAssumed { // frame_only + no_panic_assumed: callers assume that it does not panic
 		mp := ex.decl(f.pfx+"maypanic", "Bool")
 		f.panicEdgeV(mp, "callee_may_panic", anchor, calleePV)
 	}
